@@ -371,15 +371,21 @@ func (b *BlockEntity) PackXZ(X, Z int) bool {
 }
 
 func (b BlockEntity) WriteTo(w io.Writer) (n int64, err error) {
+	data := pk.NBT(b.Data)
+	if b.Data.Type == nbt.TagEnd {
+		data = pk.NBT(nil) // no NBT data: a lone TAG_End
+	}
 	return pk.Tuple{
 		pk.Byte(b.XZ),
 		pk.Short(b.Y),
 		pk.VarInt(b.Type),
-		pk.NBT(b.Data),
+		data,
 	}.WriteTo(w)
 }
 
 func (b *BlockEntity) ReadFrom(r io.Reader) (n int64, err error) {
+	// a lone TAG_End (no NBT data) is not stored: forget what the destination held
+	b.Data.Type, b.Data.Data = nbt.TagEnd, b.Data.Data[:0]
 	return pk.Tuple{
 		(*pk.Byte)(&b.XZ),
 		(*pk.Short)(&b.Y),
